@@ -287,4 +287,5 @@ CLAIM = {
     "text": "Generated-input search: request grammar, exhaustive and random damage of valid texts, arbitrary text, nesting sweeps and class descriptors are fed to the real _marshaled_dispatch; the check fails when it raises or when the output is not ''/one well-formed response object/a non-empty array of them.",
     "note": "Trusts Python's json (strict mode) as reference parser. Built-in json backend only. Bodies with non-standard literals are outside the domain (R12).",
     "design_ref": "DESIGN.md section 4, C02",
+    "engine": "E1+E4",
 }
